@@ -116,10 +116,14 @@ def VTable.ungroup (t : VTable) (grp : String) : Option (Res VTable) := do
 
 /-! ### pivot / unpivot -/
 
+/-- the aggregator of `xyz`: the four the driver can spell, or ANY function of the list of z values (`fn`: "the supplied function" of the
+statement; total — an aggregator that raises is not modelled) -/
 inductive Agg where
   | none | len | first | last
+  | fn (f : List Cell → Val)
 
 def Agg.apply : Agg → List Cell → Val
+  | .fn f, vs => f vs
   | .none, vs => .list (vs.map .cell)
   | .len, vs => .cell (.int vs.length)
   | .first, vs => .cell (vs.headD .none)
